@@ -176,4 +176,33 @@ theorem blkFind_none_hasGroup (s : Store) (blk p : ObjId) (kind n : String)
     · simp only [hu] at h; simp at h; rw [h] at h1; simp at h1
 
 
+theorem lookup_map_replace_ne (l : List (String × String)) (k v k' : String) (h : k' ≠ k) :
+    (l.map fun p => if p.1 == k then (k, v) else p).lookup k' = l.lookup k' := by
+  have hk' : (k' == k) = false := by simpa using h
+  induction l with
+  | nil => rfl
+  | cons x xs ih =>
+    obtain ⟨a, b⟩ := x
+    simp only [List.map_cons]
+    cases hx : (a == k) with
+    | true =>
+      have hxk : a = k := by simpa using hx
+      have h2 : (k' == a) = false := by rw [hxk]; exact hk'
+      simp only [if_true, List.lookup_cons, hk', h2]
+      exact ih
+    | false =>
+      simp only [Bool.false_eq_true, if_false, List.lookup_cons]
+      cases (k' == a)
+      · simp only []; exact ih
+      · rfl
+
+theorem lookup_setKV_ne (l : List (String × String)) (k v k' : String) (h : k' ≠ k) : (setKV l k v).lookup k' = l.lookup k' := by
+  have hk' : (k' == k) = false := by simpa using h
+  unfold setKV
+  split
+  · exact lookup_map_replace_ne l k v k' h
+  · rw [List.lookup_append]
+    cases l.lookup k' <;> simp [List.lookup_cons, hk']
+
+
 end Nix.St
